@@ -121,8 +121,49 @@ impl<'a> RuleDeclaredEnumeratedValues<'a> {
     }
 }
 
+impl<'a> RuleDeclaredEnumeratedValues<'a> {
+    /// Checks that the value is one of the defined values.
+    ///
+    /// The value may be qualified with the name of its enumeration
+    /// (`LEVEL#INFO`). The defined values normally are not, so compare the
+    /// value itself and check the qualifier separately.
+    fn check_defined(
+        &self,
+        defined_values: &[EnumeratedValue],
+        value: &'a EnumeratedValue,
+    ) -> Result<(), Diagnostic> {
+        let qualifier_matches = match &value.type_name {
+            Some(qualifier) => std::ptr::eq(
+                self.find_enum_declaration_values(qualifier)?.as_slice(),
+                defined_values,
+            ),
+            None => true,
+        };
+        if !qualifier_matches || !defined_values.iter().any(|v| v.value == value.value) {
+            return Err(Diagnostic::problem(
+                Problem::EnumValueNotDefined,
+                Label::span(value.span(), "Expected value in enumeration"),
+            )
+            .with_context_id("value", &value.value));
+        }
+        Ok(())
+    }
+}
+
 impl Visitor<Diagnostic> for RuleDeclaredEnumeratedValues<'_> {
     type Value = ();
+
+    fn visit_enumeration_declaration(
+        &mut self,
+        node: &EnumerationDeclaration,
+    ) -> Result<Self::Value, Diagnostic> {
+        // The default value of the declaration must be one of its values
+        if let Some(value) = &node.spec_init.default {
+            let defined_values = self.find_enum_declaration_values(&node.type_name)?;
+            self.check_defined(defined_values, value)?;
+        }
+        node.recurse_visit(self)
+    }
 
     fn visit_enumerated_initial_value_assignment(
         &mut self,
@@ -130,16 +171,7 @@ impl Visitor<Diagnostic> for RuleDeclaredEnumeratedValues<'_> {
     ) -> Result<Self::Value, Diagnostic> {
         let defined_values = self.find_enum_declaration_values(&init.type_name)?;
         if let Some(value) = &init.initial_value {
-            // TODO this is using the Id, but not the full enumerated value
-            // and we don't have declared appropriate comparison between things
-            // that are known but partially declared
-            if !defined_values.contains(value) {
-                return Err(Diagnostic::problem(
-                    Problem::EnumValueNotDefined,
-                    Label::span(value.span(), "Expected value in enumeration"),
-                )
-                .with_context_id("value", &value.value));
-            }
+            self.check_defined(defined_values, value)?;
         }
 
         Ok(())
